@@ -430,4 +430,5 @@ OBLIGATIONS = [
     ('C03.R', 'how map entries are written', 'every write into a map this property\'s rules rely on has the reviewed class (overwrite: the newest value for a key wins; keep-existing: the first one does) -- a local input submitted again before advancing replaces the pending one; see rules/removals.py, tables/removals.json', removals.rule_for('C03')),
     ('C03.V', 'no unreviewed condition in the pinned helpers', 'for each helper whose body this property\'s rules pin (tables/condition_terms.json), the terms its path conditions are built from (fields, parameters, call results -- no constants, operators or local names) are a subset of the reviewed vocabulary: one more `if` in front of a pinned result (a lock that may time out, "only while an endpoint is running") is reported; see rules/vocab.py', vocab.rule_for('C03')),
     ('C03.S', 'state inventory', 'every field of the structs this property\'s rules read (tables/state.json) is known, and is written only by its reviewed writers (or helpers only they call): a new field is new state across calls -- a cache, a flag, a stored deadline -- that nothing has shown to stay in step; a new writer is a second place that resets, re-arms or moves something; see rules/inventory.py', inventory.state_rule_for('C03')),
+    ('C03.K', 'call inventory', 'every reviewed call of a function that writes state (tables/call_edges.json, callers in the structs this property\'s rules read) is still made, directly or through helpers: a call deleted as redundant is reported; see rules/inventory.py', inventory.call_rule_for('C03')),
 ]
